@@ -183,6 +183,8 @@ type Exec struct {
 	extraUses []string
 	factSet map[string]int
 	qstack  []*qframe
+	refAx   map[string]bool
+	known   map[string]bool
 	freshOnly map[string]bool
 	loopAlloc string
 	writes  map[string][]string
@@ -284,7 +286,39 @@ func (e *Exec) addFact(f string) {
 }
 
 // assume adds f under the current path condition.
-func (e *Exec) assume(f string) { e.addFact(mkImp(e.st.pc, f)) }
+func (e *Exec) assume(f string) {
+	e.addFact(mkImp(e.st.pc, f))
+	if e.st.pc == tTrue && e.dry == 0 {
+		e.learn(f)
+	}
+}
+
+// learn records the top-level conjuncts of an unconditional fact for cheap syntactic branch pruning.
+func (e *Exec) learn(f string) {
+	if e.known == nil {
+		e.known = map[string]bool{}
+	}
+	if strings.HasPrefix(f, "(and ") {
+		for _, c := range splitSexp(f[1 : len(f)-1])[1:] {
+			e.learn(c)
+		}
+		return
+	}
+	if len(f) < 300 {
+		e.known[f] = true
+	}
+}
+
+// decided: is cond syntactically known to be true/false?
+func (e *Exec) decided(cond string) (bool, bool) {
+	if e.known[cond] {
+		return true, true
+	}
+	if e.known[mkNot(cond)] {
+		return false, true
+	}
+	return false, false
+}
 
 func (e *Exec) oblige(name, kind, clause, goal string) *Obligation {
 	if e.dry > 0 {
@@ -558,6 +592,18 @@ func (e *Exec) heapGet(key, sort string) string {
 		e.declare(init, sort)
 		e.heapInit[key] = init
 		e.heapSort[key] = sort
+		// memory model: cells of objects that do not exist yet at function entry read as zero
+		// (Go zero-initialises allocations); ghost fields are exempt
+		if key == "elems:Ref" {
+			e.decls = append(e.decls, fmt.Sprintf("(assert (forall ((b!w Int) (i!w Int)) (! (<= (root (select (select %s b!w) i!w)) alloc0) :pattern ((select (select %s b!w) i!w)))))", init, init))
+		}
+		if !strings.HasPrefix(key, "ghost:") && (sort == SArrI || sort == SArrB) {
+			zero := "0"
+			if sort == SArrB {
+				zero = "false"
+			}
+			e.decls = append(e.decls, fmt.Sprintf("(assert (forall ((r!z Int)) (! (=> (> (root r!z) alloc0) (= (select %s r!z) %s)) :pattern ((select %s r!z)))))", init, zero, init))
+		}
 	}
 	return init
 }
@@ -643,9 +689,28 @@ func (e *Exec) readField(ref string, structT types.Type, f *types.Var) Val {
 		return SliceV{Base: e.subRef(ref, key), Off: "0", Len: mkInt(a.Len()), Cap: mkInt(a.Len())}
 	case kBool:
 		return bv(mkSelect(e.heapGet(key, SArrB), ref))
+	case kRef:
+		e.refKeyAxiom(key)
+		return iv(mkSelect(e.heapGet(key, SArrI), ref))
 	default:
 		return iv(mkSelect(e.heapGet(key, SArrI), ref))
 	}
+}
+
+// refKeyAxiom: references stored in the entry heap point to objects that exist at entry (well-typed heap).
+func (e *Exec) refKeyAxiom(key string) {
+	if e.refAx == nil {
+		e.refAx = map[string]bool{}
+	}
+	if e.refAx[key] {
+		return
+	}
+	e.refAx[key] = true
+	init := e.heapGet(key, SArrI)
+	if init != e.heapInit[key] {
+		init = e.heapInit[key]
+	}
+	e.decls = append(e.decls, fmt.Sprintf("(assert (forall ((r!w Int)) (! (<= (root (select %s r!w)) alloc0) :pattern ((select %s r!w)))))", init, init))
 }
 
 // sliceFacts: basic well-formedness of a slice read from the heap.
@@ -771,8 +836,11 @@ func (e *Exec) zeroValShallow(t types.Type) Val {
 // slices
 
 func elemsKey(elemT types.Type) (string, string) {
-	if kindOf(elemT) == kBool {
+	switch kindOf(elemT) {
+	case kBool:
 		return "elems:Bool", arrSort(SArrB)
+	case kRef, kStruct:
+		return "elems:Ref", arrSort(SArrI)
 	}
 	return "elems:Int", arrSort(SArrI)
 }
